@@ -213,6 +213,7 @@ def run(ctx):
     from rules import lefrules as lr
     lr.rule_text_verbatim(ctx, "R05.3")
     lr.rule_plain_number_format(ctx, "R05.8")
+    lr.rule_line_writer_verbatim(ctx, "R05.9")
     ctx.count("token_sequences_simulated", n_seqs)
 
     # ---- R05.1 writer reads every field
@@ -254,6 +255,21 @@ def run(ctx):
             else:
                 ctx.violation("R05.1", key, "%s never reads %s: the field is lost when the library is written" % (wf.short, key), "%s:%d" % (wf.sp[0], wf.sp[1]), key)
     ctx.floor("R05.1", "model_fields", n_f, 60)
+    # ---- R05.1b a field that is set is written: per successful writer path, every Option field of the value being written
+    # is either known to be None on that path (its own test), or decided by a test of its own payload, or reaches the output
+    ctx.rule("R05.1b", "on every successful path of every writer routine, each optional field of the value being written is either tested absent on that path, or reaches the output: a field left out because a SIBLING field took its place (alternatives in one `match`) is lost when both are set")
+    n_w = 0
+    for wf in writers:
+        if wf.id in wm.truncated:
+            continue
+        wm.paths(wf)
+        n_w += 1
+        for fld, cnt in sorted((wm.unwritten.get(wf.id) or {}).items()):
+            key = "%s/%s" % (wf.short.split("::")[-1], fld)
+            ctx.violation("R05.1b", key, "%s has %d successful path(s) on which `%s` is neither known to be absent nor written: when it is set together with whatever that path tests instead, it is silently left out of the text" % (wf.short, cnt, fld), "%s:%d" % (wf.sp[0], wf.sp[1]), key)
+        if not (wm.unwritten.get(wf.id) or {}):
+            ctx.ok("R05.1b", wf.short.split("::")[-1], "every optional field tested absent or written on every path")
+    ctx.floor("R05.1b", "writer_routines_path_checked", n_w, 8)
 
     rule_version_gates(ctx, "R05.4", parsers)
     lr.rule_indent_pairing(ctx, "R05.5")
